@@ -11,6 +11,7 @@ STATIC_THEOREMS = [
     'SnapraidVerif.Props.C11.diff_silent_when_equal',
     'SnapraidVerif.Props.C11.seq_scan_sound',
     'SnapraidVerif.Props.C11.seq_changed_is_reread',
+    'SnapraidVerif.Props.C11.scan_converges',
 ]
 
 def present_files(a):
